@@ -113,6 +113,8 @@ pub struct NodeState {
     /// policy rejections by txid -> rpc code
     pub policy: HashMap<Txid, i32>,
     pub txindex: bool,
+    /// every transaction that ever was in the mempool or in a block of this node
+    pub ever_known: HashSet<Txid>,
     pub log: Vec<RpcEvent>,
     pub calls: usize,
     pub fault: FaultScript,
@@ -278,6 +280,7 @@ impl NodeState {
         match self.check_tx(tx, true) {
             Ok(()) => {
                 self.mempool.push(tx.clone());
+                self.ever_known.insert(txid);
                 Verdict::Accepted
             }
             Err(c) => Verdict::Error(c),
@@ -381,6 +384,7 @@ impl NodeState {
             }
         }
         let ids: Vec<Txid> = chosen.iter().map(|t| t.compute_txid()).collect();
+        self.ever_known.extend(ids.iter().cloned());
         let prev = self.tip_hash();
         let hash = self.build_block_on(prev, chosen);
         self.active.push(hash);
@@ -442,6 +446,7 @@ impl Node {
             funded: HashSet::new(),
             policy: HashMap::new(),
             txindex,
+            ever_known: HashSet::new(),
             log: vec![],
             calls: 0,
             fault: FaultScript::default(),
